@@ -28,8 +28,8 @@ type refHandler struct {
 	events     []string
 	inbox      map[string][]byte
 	inboxOrder []string
-	sent       map[string]int  // MID -> number of SetSent(mid,false)
-	rejected   map[string]int  // MID -> number of SetSent(mid,true)
+	sent       map[string]int // MID -> number of SetSent(mid,false)
+	rejected   map[string]int // MID -> number of SetSent(mid,true)
 	deferred   map[string]int
 	processed  map[string]int // MID -> number of successful ProcessInbound
 	dedup      bool           // reject MIDs already in the inbox (used for convergence histories)
@@ -236,16 +236,16 @@ func (c sideCfg) modelLine(input []byte) string {
 // ---------------------------------------------------------------- running a real side
 
 type sideObs struct {
-	Res      string // nil|connlost|other|panic|hang
-	Wire     []byte
-	Writes   [][]byte
-	Sent     []string
-	Recv     []string
-	Events   []string
-	Closed   bool
-	Err      string
-	AllocMB  float64
-	Handler  *refHandler
+	Res     string // nil|connlost|other|panic|hang
+	Wire    []byte
+	Writes  [][]byte
+	Sent    []string
+	Recv    []string
+	Events  []string
+	Closed  bool
+	Err     string
+	AllocMB float64
+	Handler *refHandler
 }
 
 func canonEvents(ev []string) string {
